@@ -133,10 +133,52 @@ for _c in [update, eq, copy, init, flat]:
 TARGETS = list(L.PUBLIC) + [('LRI.update', ['LRI', 'LRU']), ('LRI.__eq__', ['LRI', 'LRU']), ('LRI.copy', ['LRI', 'LRU'])]
 
 
+NOT_TARGETS = {'LRI.__init__', 'LRI.__repr__', 'LRU.__init__'} | HELPERS_REQUIRE_HELD
+
+
+def extra_methods(src):
+    """methods defined in class LRI / LRU by the current source that have no lock contract of their own (e.g. a method a change
+    adds or re-implements, such as __ne__ or __contains__): they get the generic guarded-by contract"""
+    import ast
+    out = []
+    for cname in ('LRI', 'LRU'):
+        cls = src.classes.get(cname)
+        if cls is None:
+            continue
+        for node in cls.body:
+            if isinstance(node, ast.FunctionDef):
+                q = '%s.%s' % (cname, node.name)
+                private = node.name.startswith('_') and not node.name.startswith('__')     # not reachable through the dict API
+                if q not in CONTRACTS and q not in NOT_TARGETS and not private and not any(isinstance(d, ast.Name) and d.id in ('property', 'staticmethod', 'classmethod')
+                                                                           for d in node.decorator_list):
+                    out.append((q, node))
+    return out
+
+
+def generic_contract(q, node):
+    names = [a.arg for a in node.args.args[1:]]
+
+    def setup(eng, st, variant='LRI'):
+        d = L.S()(eng, st, variant)
+        for n in names:
+            d[n] = SVal(z3.Const('arg_' + n, Val))
+        return d
+    return Contract(q, setup=setup, requires=ANY, ensures=ANY, modifies=None, variants=['LRI', 'LRU'] if q.startswith('LRI.') else ['LRU'],
+                    raises={'Exception': ANY}, exc_any=ANY)
+
+
+def targets(repo):
+    from pyvc import front
+    src = front.load(repo, L.FILE)
+    return list(TARGETS) + [(q, ['LRI', 'LRU'] if q.startswith('LRI.') else ['LRU']) for q, _ in extra_methods(src)]
+
+
 def make_engine(repo):
     from pyvc.engine import Engine
-    eng = Engine(repo, L.FILE, classes=L.CLASSES, contracts=CONTRACTS, consts=dict(L.CONSTS), hooks=GuardHooks(),
+    eng = Engine(repo, L.FILE, classes=L.CLASSES, contracts=dict(CONTRACTS), consts=dict(L.CONSTS), hooks=GuardHooks(),
                  externals=EXTERNALS)
+    for q, node in extra_methods(eng.src):
+        eng.contracts[q] = generic_contract(q, node)
     for c in L.ALL:
         eng.register_class(c)
     eng.consts['RLock'] = SFunc('extfunc', 'RLock')
